@@ -43,10 +43,11 @@ class BufRef:
 
 
 class BufView:
-    """A view of the logical block at the start of a buffer."""
+    """A view of the logical block at the start of a buffer; `extent` is the stop of the slice b[:n] that made it (None: all)."""
 
-    def __init__(self, ref):
+    def __init__(self, ref, extent=None):
         self.ref = ref
+        self.extent = extent
 
 
 class BufCopy:
@@ -131,7 +132,12 @@ class BufMixin:
         if isinstance(base, (Buf, BufRef, BufView)):
             # b[:n], v[:], v[:]  -> view of the logical block (the extent is not tracked: contents are whole blocks)
             if isinstance(idx, slice) and idx.step is None and (idx.start is None or (is_cint(idx.start) and idx.start == 0)):
-                return BufView(self.as_ref(base))
+                ext = getattr(base, 'extent', None)
+                if idx.stop is not None:
+                    if ext is not None:
+                        raise OutOfReach('slice of a slice of an opaque buffer')
+                    ext = idx.stop
+                return BufView(self.as_ref(base), ext)
             raise OutOfReach('element access into an opaque buffer')
         return NotImplemented
 
@@ -144,6 +150,16 @@ class BufMixin:
             if not isinstance(val, BufCopy):
                 # overlapping copy is undefined: require distinct buffers
                 self.safety(st, fr, 'no_overlap', b_not(self.same_buffer(base, val)), node)
+                # buffer-to-buffer copy through b[:n] slices moves n entries only: the block held by the source (the first
+                # lsize(layout) entries) arrives whole only if every stated extent covers it.  (A copy of a reshaped view,
+                # BufCopy, has exactly the block's entries and numpy itself checks the extents.)
+                cv, _, cl = self.content(st, val)
+                lsize = V.uf('lsize', INT, INT)
+                for ext in (getattr(base, 'extent', None) if isinstance(base, BufView) else None,
+                            idx.stop if isinstance(idx, slice) else None,
+                            getattr(val, 'extent', None) if isinstance(val, BufView) else None):
+                    if ext is not None:
+                        self.safety(st, fr, 'block_covered', z3.Implies(zb(cv), Z(ext) >= lsize(ZI(cl))), node)
             self.set_content(st, base, self.content(st, val))
             return True
         return NotImplemented
